@@ -42,10 +42,15 @@ theorem c08_model (e : E) (hw : WellPar e) (hn : noParConcatUnderConcat e) (hr :
 
 /-
 `parse_only_wellpar : parse ts = some a → ∃ e, WellPar e ∧ render e = ts ∧ erase e = a`
-is FALSE for the faithful model, hence not stated: `parseInfixExpression`'s `case token.NOT` consumes an infix NOT that is
-not followed by IN/LIKE/ILIKE/REGEXP/BETWEEN and returns `left` (expression.go:548-565), so `SELECT a NOT` and
-`SELECT 1 NOT + 2` are accepted and print `Identifier a` / `plus(1, 2)`:
-`parse [.ident "a", .not] = some (.ident "a" false)` although no tree renders to `a NOT`.
+is FALSE for the faithful model (and for the real parser), hence not stated: `parseInfixExpression`'s `case token.NOT`
+consumes an infix NOT that is not followed by IN/LIKE/ILIKE/REGEXP/BETWEEN and returns `left` (expression.go:548-565).
+So `SELECT a NOT` is accepted and prints `Identifier a` (`parse [.ident "a", .not] = some (.ident "a" false)`, no tree
+renders to `a NOT`), and even the weaker "every parsed AST is `erase e` of a well-parenthesised `e`" fails:
+`SELECT a + b NOT * c` is accepted and prints `multiply(plus(a, b), c)` — the right operand of `+` stops at the NOT
+(ADD ≥ NOT_PREC), the outer loop drops the NOT and then takes `*`. These texts are outside C08's fragment (an infix
+NOT is not a unary NOT). What the converse is meant to guard — that `WellPar` has no superfluous side condition — is
+checked exhaustively by the harness instead: on every enumerated tree, `parse (render e) = some (erase e) ↔ WellPar e`
+(p_c08.go, obligation "parse_only_wellpar").
 -/
 
 /-! ## non-vacuity -/
